@@ -36,6 +36,11 @@ def get_usages(object):
             if x.origin is not None:
                 for input in x.origin.inputs:
                     _recurse(input)
+                if isinstance(x.origin, tracer.signature.python.UpdateItem):
+                    # The updated object is used by the update statement and is its result -> must not be inlined
+                    _recurse(x.origin.obj)
+                elif isinstance(x.origin, tracer.signature.python.CallInplace):
+                    _recurse(x.origin.xs)
                 for output in pytree.flatten(x.origin.output):
                     _recurse(output, is_usage=False)
         elif isinstance(x, list | tuple):
